@@ -569,7 +569,7 @@ Proof.
               Hl1 Hls Hf PO Hmaj (or_introl (conj Hch Hlen))) as (Hrest & _ & Hused & Hbody & _).
   cbn [aligned]. split; [reflexivity|].
   assert (Hu : fw_used f = lenN (smsg_bytes m)).
-  { rewrite Hused. unfold smsg_bytes. rewrite <- !app_assoc. reflexivity. }
+  { rewrite Hused. unfold smsg_bytes. rewrite <- ?app_assoc. reflexivity. }
   split; [exact Hu|]. split; [apply Hbody; exact Hch|].
   destruct persist; [|destruct ms; exact I].
   subst rest. rewrite Hu in *. apply IH; [exact Hok'| |exact Hag'].
